@@ -755,7 +755,10 @@ class Note:
             result += f".{self.accident}"
         if self.is_note or self.type == "x" or self.is_drum:
             amp_figure = self.amp_figure
-            if amp_figure != 'mf':
+            if amp_figure == 'n':
+                # '.n' is read back as the empty duration (STR_TO_DURATION['n'] == 0), not as the dynamics
+                result += ".set_amp(0)"
+            elif amp_figure != 'mf':
                 result += f".{self.amp_figure}"
         if len(self.tags) > 0:
             result += f".add_tags({self.tags})"
